@@ -35,6 +35,13 @@
 (*   issued clients that exist   expired  clients whose stored expiry date lies in the past     *)
 (*   bound  clients bound to a user (Service.BindToUser; binding clears the expiry date, a      *)
 (*          later ExtendExpiration can set one again: expiry applies to both kinds of client)   *)
+(*   bperm  (subset of banned) bans without an expiry date: only UnbanIP lifts them               *)
+(*   blapsed addresses with a temporary ban record whose duration has run out (not in force; the  *)
+(*          record is removed lazily by the next IsBanned query or by the clean-up pass)          *)
+(*   banP   bans in force by their own terms (made, running or permanent, not lifted by UnbanIP):  *)
+(*          what the statement calls a banned address, whatever the protector's table says now     *)
+(*   bfgen  clean-up ticks so far (BruteForceProtector.cleanup and IPManager.cleanup, both on a    *)
+(*          one-minute ticker): every message class is explored again behind a tick               *)
 (*   banned / black   addresses banned by the brute-force protector / blacklisted (every      *)
 (*          connection has its own remote address)    fails  failures recorded per address     *)
 (* Ghost state: proved (per connection: identities issued or proven on it), ctl (connections   *)
@@ -59,6 +66,10 @@ CONSTANTS Conn,      \* sequence of connection names, accepted in this order, e.
                      \*   "blankSkipsVerify" a record without an encrypted secret is accepted without verification in phase 2
                      \*   "oldKeyAccepted"   the verifier still accepts the secret that ResetSecretKey replaced
                      \*   "deletedStillKnown" the handler still finds the record of a deleted client (a copy that is never invalidated)
+                     \*   "cleanupDropsPermanent" / "cleanupDropsLiveTemp"  BruteForceProtector.cleanup deletes ban records without an
+                     \*                      expiry date / temporary ban records that are still running
+                     \*   "ipCleanupDropsPermanent" / "ipCleanupDropsLiveTemp"  the same for IPManager.cleanup and the blacklist
+                     \*   "lazyUnbanDropsPermanent"  the handler's IsBanned query treats a ban without an expiry date as run out
           Ops,       \* enabled operation kinds
           Types,     \* connection types used in handshake messages
           PreAccept, \* TRUE: all connections are accepted in the initial state
@@ -106,14 +117,21 @@ GetOrCreate(s, c) ==
        IN [s1 EXCEPT !.reg = @ \cup {c}, !.auth[c] = None, !.pend[c] = 0, !.ord = Append(Live(s1), c)]
 
 \* BruteForceProtector.RecordFailure (+ banIP at the threshold)
+\* ("PermBan" in Ops: the protector is configured with PermanentBanAt = MaxFailures - the ban that accumulated failed
+\* handshakes produce is a permanent one; otherwise it is a temporary one that outlasts the behaviour)
+PermOn == "PermBan" \in Ops
 RecFail(s, c) == LET n == IF s.fails[c] < MaxFail THEN s.fails[c] + 1 ELSE MaxFail
-                 IN [s EXCEPT !.fails[c] = n, !.banned = IF n >= MaxFail THEN @ \cup {c} ELSE @]
+                     hit == n >= MaxFail
+                 IN [s EXCEPT !.fails[c] = n, !.banned = IF hit THEN @ \cup {c} ELSE @,
+                              !.bperm = IF hit /\ PermOn THEN @ \cup {c} ELSE @,
+                              !.banP = IF hit THEN @ \cup {c} ELSE @, !.blapsed = IF hit THEN @ \ {c} ELSE @]
 
 NextClient(s) == Client[Cardinality(s.issued) + 1]
 
 \* IPManager.IsAllowed (whitelist first, then blacklist; the in-memory lists) and BruteForceProtector.IsBanned
 PassIP(s, c) == c \in s.white \/ ("whitelistAny" \in Faults /\ s.white # {}) \/ c \notin s.black
-Refused(s, c) == ~PassIP(s, c) \/ c \in s.banned
+BanInForce(s, c) == c \in s.banned /\ ~("lazyUnbanDropsPermanent" \in Faults /\ c \in s.bperm)
+Refused(s, c) == ~PassIP(s, c) \/ BanInForce(s, c)
 
 \* SecretKeyManager.VerifyResponse(stored secret of m.id, pending challenge of c, response): decrypt, HMAC, compare
 Verifies(s, c, m) ==
@@ -123,8 +141,11 @@ Verifies(s, c, m) ==
   \/ "oldKeyAccepted" \in Faults /\ m.resp = "OldKey" /\ m.id \notin s.corrupt
 
 \* ServerAuthHandler.HandleHandshake: [s |-> state, out |-> "ok" | "chal" | "fail", id |-> client concerned]
+\* (a handshake that passes the IPManager asks IsBanned, which has a run-out ban record of the address removed)
 Handler(s0, c, m) ==
-  LET s == GetOrCreate(s0, c) IN
+  LET sg == GetOrCreate(s0, c)
+      s  == IF PassIP(sg, c) THEN [sg EXCEPT !.blapsed = @ \ {c}] ELSE sg
+  IN
   IF Refused(s, c) THEN [s |-> s, out |-> "fail", id |-> None]
   ELSE IF "oneIdentity" \in Fixes /\ s.auth[c] # None /\ (m.k = "FC" \/ m.id # s.auth[c])
     THEN [s |-> s, out |-> "fail", id |-> None]
@@ -202,7 +223,8 @@ MsgEnabled(s, c, m) == /\ c \in s.sess /\ c \notin s.tcl /\ c # s.kq
                        /\ m.k = "FC" => Cardinality(s.issued) < Len(Client)
                        /\ m.k = "P1" => s.nn[c] < MaxNonce
 
-Proj(s) == [auth |-> [c \in ConnS |-> AuthOf(s, c)], idx |-> s.idx, reg |-> s.reg, sess |-> s.sess, tcl |-> s.tcl, cap |-> MaxCtl]
+Proj(s) == [auth |-> [c \in ConnS |-> AuthOf(s, c)], idx |-> s.idx, reg |-> s.reg, sess |-> s.sess, tcl |-> s.tcl, cap |-> MaxCtl,
+            bf |-> [max |-> MaxFail, perm |-> IF PermOn THEN MaxFail ELSE 0]]   \* protector configuration (0 = no permanent threshold in reach)
 
 \* Emit = "all": one behaviour per explored transition (with VIEW view: transition coverage of the
 \* state graph, each state reached by a shortest history); "last": only histories that reached
@@ -214,7 +236,7 @@ Out(h) == CASE Emit = "all" -> PrintT("BEH " \o ToJson(h))
 \* the statement's "banned or blacklisted address": banned by the protector, or on the operator's blacklist - the
 \* persisted list, which a restarted server / another node must enforce as well as the one that took the entry - and
 \* not exempted by the operator's whitelist
-Barred(s, c) == c \in s.banned \/ ((c \in s.black \/ c \in s.blackP) /\ c \notin s.whiteP)
+Barred(s, c) == c \in s.banned \/ c \in s.banP \/ ((c \in s.black \/ c \in s.blackP) /\ c \notin s.whiteP)
 
 \* step properties of C03 evaluated on a sequential handshake step s -> t on connection c
 StepViol(s, t, c, m, out) ==
@@ -365,13 +387,41 @@ Unregister(c) == /\ "Unregister" \in Ops /\ Go /\ c \in st.reg /\ c # st.kq
                  /\ UNCHANGED <<pc, proved, ctl, used, gv, dev>>
 
 Ban(c) == /\ "Ban" \in Ops /\ Go /\ c \in st.sess /\ c \notin st.banned
-          /\ LET t == [st EXCEPT !.banned = @ \cup {c}] IN st' = t /\ Record([op |-> "Ban", c |-> c], t)
+          /\ LET t == [st EXCEPT !.banned = @ \cup {c}, !.banP = @ \cup {c}, !.blapsed = @ \ {c}]
+             IN st' = t /\ Record([op |-> "Ban", c |-> c], t)
           /\ UNCHANGED <<pc, proved, ctl, used, gv, dev>>
+\* the operator's BanIP in its other forms: how = "perm" (duration 0: no expiry date; replaces whatever record there is),
+\* "lapsed" (a temporary ban whose duration has run out since; nobody asked IsBanned yet, the record is still there)
+BanAs(c, how) == /\ "BanKinds" \in Ops /\ Go /\ c \in st.sess
+                 /\ how = "perm" => c \notin st.bperm
+                 /\ how = "lapsed" => c \notin st.banned /\ c \notin st.blapsed
+                 /\ LET t == IF how = "perm"
+                             THEN [st EXCEPT !.banned = @ \cup {c}, !.bperm = @ \cup {c}, !.banP = @ \cup {c}, !.blapsed = @ \ {c}]
+                             ELSE [st EXCEPT !.blapsed = @ \cup {c}]
+                    IN st' = t /\ Record([op |-> "Ban", c |-> c, how |-> how], t)
+                 /\ UNCHANGED <<pc, proved, ctl, used, gv, dev>>
+\* the operator's UnbanIP: the record is removed whatever it is; the failure history of the address stays
+Unban(c) == /\ "Unban" \in Ops /\ Go /\ c \in st.banned \cup st.blapsed
+            /\ LET t == [st EXCEPT !.banned = @ \ {c}, !.bperm = @ \ {c}, !.banP = @ \ {c}, !.blapsed = @ \ {c}]
+               IN st' = t /\ Record([op |-> "Unban", c |-> c], t)
+            /\ UNCHANGED <<pc, proved, ctl, used, gv, dev>>
+\* one tick of the background clean-ups (BruteForceProtector.cleanup: run-out ban records go, permanent and running
+\* ones stay, failures inside the time window stay; IPManager.cleanup: run-out blacklist entries go - there are none
+\* inside a behaviour -, permanent and running ones stay, in memory and in the storage)
+IpCleanDrop(h) == \/ h \in {"perm", "cidr"} /\ "ipCleanupDropsPermanent" \in Faults
+                  \/ h = "temp" /\ "ipCleanupDropsLiveTemp" \in Faults
+Cleanup == /\ "Cleanup" \in Ops /\ Go /\ st.bfgen < 1
+           /\ LET dropB == (IF "cleanupDropsPermanent" \in Faults THEN st.bperm ELSE {})
+                           \cup (IF "cleanupDropsLiveTemp" \in Faults THEN st.banned \ st.bperm ELSE {})
+                  t == [st EXCEPT !.blapsed = {}, !.bfgen = @ + 1, !.banned = @ \ dropB, !.bperm = @ \ dropB,
+                                  !.black = {c \in @ : ~IpCleanDrop(st.bhow[c])}]
+              IN st' = t /\ Record([op |-> "Cleanup"], t)
+           /\ UNCHANGED <<pc, proved, ctl, used, gv, dev>>
 \* IPManager.AddToBlacklist: in-memory list and shared storage. how = "temp" (a duration that does
 \* not run out within a behaviour), "perm" (duration 0 = never expires), "cidr" (permanent, as a range)
 Blacklist(c, how) == /\ "Blacklist" \in Ops /\ Go /\ c \in st.sess /\ c \notin st.black
                      /\ LET t == [st EXCEPT !.black = @ \cup {c}, !.blackP = @ \cup {c},
-                                            !.bhow[c] = IF "Reload" \in Ops THEN how ELSE "any"]   \* the shape matters to the loader only
+                                            !.bhow[c] = IF "Reload" \in Ops \/ "Cleanup" \in Ops THEN how ELSE "any"]   \* the shape matters to the loader and the clean-up only
                         IN st' = t /\ Record([op |-> "Blacklist", c |-> c, how |-> how], t)
                      /\ UNCHANGED <<pc, proved, ctl, used, gv, dev>>
 \* the IPManager is re-created on the same storage (restart / another node): every persisted entry is in force again
@@ -442,6 +492,7 @@ Init ==
            tcl |-> {}, reg |-> {},
            auth |-> [c \in ConnS |-> None], pend |-> [c \in ConnS |-> 0], nn |-> [c \in ConnS |-> 0],
            idx |-> [X \in ClientS |-> None], issued |-> {}, expired |-> {}, bound |-> {}, banned |-> {}, black |-> {}, blackP |-> {},
+           bperm |-> {}, blapsed |-> {}, banP |-> {}, bfgen |-> 0,
            corrupt |-> {}, blank |-> {}, rekeyed |-> {}, deleted |-> {}, bhow |-> [c \in ConnS |-> None], white |-> {}, whiteP |-> {}, ipgen |-> 0,
            cloud |-> "up", kq |-> None, kx |-> None,
            fails |-> [c \in ConnS |-> 0], ord |-> <<>>]
@@ -460,9 +511,11 @@ Next == \/ Accept
                             \/ Close(c) \/ Heartbeat(c) \/ Unregister(c) \/ Ban(c)
                             \/ \E how \in {"temp", "perm", "cidr"} : Blacklist(c, how)
                             \/ \E how \in {"exact", "cidr"} : Whitelist(c, how)
+                            \/ \E how \in {"perm", "lapsed"} : BanAs(c, how)
+                            \/ Unban(c)
         \/ SReap
         \/ \E X \in ClientS : Expire(X) \/ Bind(X) \/ Rekey(X) \/ Delete(X) \/ (\E how \in {"rotated", "damaged", "notb64", "short", "blank"} : Corrupt(X, how)) \/ \E n \in ConnS \cup {None} : (Kick(X, n) \/ KickBegin(X, n))
-        \/ KickEnd \/ Reload \/ Cloud("down") \/ Cloud("up")
+        \/ KickEnd \/ Reload \/ Cleanup \/ Cloud("down") \/ Cloud("up")
         \/ \E S \in SUBSET ConnS : Tick(S)
 Spec == Init /\ [][Next]_vars
 
